@@ -359,6 +359,10 @@ func init() {
 						for pre := 0; pre <= 1; pre++ {
 							for sc := 1; sc <= 2; sc++ {
 								jobs = append(jobs, J(sessPkg, "H_C14_echo", role, l, pre, sc))
+								if l <= 2 && sc == 1 {
+									// pre-state: second logon on the same session (logout exchange, logon again)
+									jobs = append(jobs, J(sessPkg, "H_C14_echo", role, l, pre, sc, 1))
+								}
 							}
 						}
 					}
@@ -541,7 +545,7 @@ func init() {
 			Jobs: func(tier string) []Job {
 				var jobs []Job
 				for role := 0; role <= 1; role++ {
-					for sc := 0; sc <= 3; sc++ {
+					for sc := 0; sc <= 4; sc++ {
 						jobs = append(jobs, J(sessPkg, "H_C15_logout", role, sc, 0))
 						if sc != 1 {
 							jobs = append(jobs, J(sessPkg, "H_C15_logout", role, sc, 1))
@@ -748,10 +752,12 @@ func init() {
 					}
 					for kind := 0; kind <= 3; kind++ {
 						jobs = append(jobs, J(sessPkg, "H_C08_refresh", role, 0, kind))
+						jobs = append(jobs, J(sessPkg, "H_C08_refresh", role, 0, kind, 1)) // after a second logon
 					}
 					for st := 0; st <= 1; st++ {
 						for canc := 0; canc <= 1; canc++ {
 							jobs = append(jobs, J(sessPkg, "H_C08_heartbeat", role, st, canc))
+							jobs = append(jobs, J(sessPkg, "H_C08_heartbeat", role, st, canc, 1))
 						}
 					}
 				}
@@ -784,6 +790,13 @@ func init() {
 						jobs = append(jobs, J(sessPkg, "H_C08_refresh", role, 1, k))
 					}
 					jobs = append(jobs, J(sessPkg, "H_C09_probe", role, 0, 0), J(sessPkg, "H_C09_probe", role, 2, 0))
+					// silence that begins while a local Logout is unanswered
+					jobs = append(jobs, J(sessPkg, "H_C09_probe", role, 0, 0, 0, 1))
+					// the same from the pre-state "second logon on the same session"
+					jobs = append(jobs, J(sessPkg, "H_C09_probe", role, 0, 0, 1), J(sessPkg, "H_C09_probe", role, 2, 0, 1), J(sessPkg, "H_C09_probe", role, 1, 2, 1), J(sessPkg, "H_C09_probe", role, 1, 7, 1))
+					for _, k := range []int{0, 2, 3, 6, 7, 9} {
+						jobs = append(jobs, J(sessPkg, "H_C08_refresh", role, 1, k, 1))
+					}
 					for k := 0; k < 8*6; k += 1 {
 						if k/8 != 0 && k%8 > 4 {
 							continue
